@@ -306,7 +306,8 @@ fn gen_nr(thorough: bool, rng: &mut Rng) -> Result<(), String> {
             // holders 2 and 3 are one person (same link secret): used for two-credential presentations
             if idx != 3 { shared_secret = dec_of_hex(&rng.hex_bits(250)); }
             hidden.insert("master_secret".to_string(), shared_secret.clone());
-            let cred = issue(cd, &known, &hidden, &format!("holder-{}", idx), Some((&mut rc, idx)))?;
+            // one prover id for all: sibling credentials differ in the revocation index only (the context m2 must still differ)
+            let cred = issue(cd, &known, &hidden, "holder", Some((&mut rc, idx)))?;
             // earlier holders consume the issuance delta (on demand)
             if let Some(d) = &cred.delta {
                 for h in holders.iter_mut() {
@@ -318,6 +319,118 @@ fn gen_nr(thorough: bool, rng: &mut Rng) -> Result<(), String> {
             valid.insert(idx);
             let wview = valid.clone();
             holders.push(Holder { idx, known, cred, wview, factors_vr: String::new() });
+        }
+        // ---- the holder's check of a revocation signature (process_credential_signature with key, registry and
+        //      witness): a fourth credential issued step by step; every field of r_credential altered in turn must
+        //      be refused (C05: "every field of CredentialSignature")
+        {
+            let idx4 = 4u32;
+            let mut known = BTreeMap::new();
+            for a in &cd.attrs { known.insert(a.clone(), format!("{}", rng.range(0, 100000))); }
+            let mut hidden = BTreeMap::new();
+            hidden.insert("master_secret".to_string(), dec_of_hex(&rng.hex_bits(250)));
+            let known_vals = values_of(&known, &BTreeMap::new())?;
+            let hidden_vals = values_of(&BTreeMap::new(), &hidden)?;
+            let nonce4 = new_nonce().map_err(e)?;
+            let (blinded, factors, bproof) = Prover::blind_credential_secrets(&cd.pk, &cd.kcp, &hidden_vals, &nonce4).map_err(e)?;
+            let inonce = new_nonce().map_err(e)?;
+            let all = known_vals.merge(&hidden_vals).map_err(e)?;
+            let (sig, sproof, witness, delta4) = Issuer::sign_credential_with_revoc("holder", &blinded, &bproof, &nonce4, &inonce, &known_vals,
+                &cd.pk, &cd.sk, idx4, l, by_default, &mut rc.reg, &rc.key_priv).map_err(e)?;
+            if let Some(d) = &delta4 {
+                for h in holders.iter_mut() {
+                    h.cred.witness.as_mut().unwrap().update(h.idx, l, d, &rc.tails).map_err(e)?;
+                    h.wview.insert(idx4);
+                }
+            }
+            valid.insert(idx4);
+            let sigj = jv(&sig);
+            // control: untouched; its processed form carries vr' + vr''
+            let mut s_ctl: CredentialSignature = from_jv(&sigj)?;
+            let r_ctl = guard(|| Prover::process_credential_signature(&mut s_ctl, &all, &sproof, &factors, &cd.pk, &inonce, Some(&rc.key_pub), Some(&rc.reg), Some(&witness)));
+            let vr2_final = jv(&s_ctl)["r_credential"]["vr_prime_prime"].clone();
+            let o_sig = jv(&holders[0].cred.sig)["r_credential"].clone();
+            let o_wit = jv(holders[0].cred.witness.as_ref().unwrap());
+            let sc = |v: &Value| vf::GroupOrderElement::from_string(v.as_str().unwrap_or(""));
+            let one = vf::GroupOrderElement::from_bytes(&[1]).map_err(e)?;
+            let vr_prime = sc(&jv(&factors)["vr_prime"]).map_err(e)?;
+            let valid4: Vec<u32> = valid.iter().cloned().collect();
+            let ctx = json!({
+                "key": rd.exps, "x": rd.exps["x"], "sk": rd.exps["sk"], "gamma": rc.gamma_hex(), "L": l, "valid": valid4,
+                "cred": {"i": idx4, "m2": sigj["r_credential"]["m2"], "vr2": vr2_final, "c": sigj["r_credential"]["c"], "witness_valid": valid4},
+                "other": {"i": holders[0].idx, "m2": o_sig["m2"], "vr2": o_sig["vr_prime_prime"], "c": o_sig["c"],
+                          "witness_valid": holders[0].wview.iter().collect::<Vec<_>>()},
+            });
+            // (name, [(model field, mode)], single value-changing alteration of the signature?)
+            let alts: Vec<(&str, Vec<(&str, &str)>, bool)> = vec![
+                ("control", vec![], false),
+                ("r_credential.g_i from another session", vec![("gI", "other")], true),
+                ("r_credential.sigma from another session", vec![("sigma", "other")], true),
+                ("witness_signature.sigma_i from another session", vec![("sigmaI", "other")], true),
+                ("witness_signature.u_i from another session", vec![("uI", "other")], true),
+                ("witness_signature.g_i from another session", vec![("wgI", "other")], true),
+                ("r_credential.c+1", vec![("c", "plus1")], true),
+                ("r_credential.vr_prime_prime+1", vec![("vr2", "plus1")], true),
+                ("r_credential.m2+1", vec![("m2", "plus1")], true),
+                ("r_credential.c from another session", vec![("c", "other")], true),
+                ("r_credential.m2 from another session", vec![("m2", "other")], true),
+                ("r_credential.i+1", vec![("i", "plus1")], true),
+                ("witness of another credential", vec![("omega", "other")], false),
+                ("g_i and u_i from another session", vec![("gI", "other"), ("uI", "other")], false),
+                ("g_i, sigma_i and u_i from another session", vec![("gI", "other"), ("sigmaI", "other"), ("uI", "other")], false),
+                ("whole witness_signature from another session", vec![("wgI", "other"), ("sigmaI", "other"), ("uI", "other")], false),
+                ("every group element from another session", vec![("gI", "other"), ("sigmaI", "other"), ("uI", "other"), ("wgI", "other"), ("sigma", "other")], false),
+                ("everything but witness_signature.g_i from another session (vr'' adjusted for the holder's vr')",
+                 vec![("gI", "other"), ("sigmaI", "other"), ("uI", "other"), ("sigma", "other"), ("c", "other"), ("m2", "other"), ("vr2", "other")], false),
+            ];
+            for (ai, (name, fields, single)) in alts.iter().enumerate() {
+                let mut v = sigj.clone();
+                let mut wit = jv(&witness);
+                let mut skip = false;
+                for (f, mode) in fields {
+                    let rc_ = &mut v["r_credential"];
+                    match (*f, *mode) {
+                        ("gI", "other") => rc_["g_i"] = o_sig["g_i"].clone(),
+                        ("sigma", "other") => rc_["sigma"] = o_sig["sigma"].clone(),
+                        ("sigmaI", "other") => rc_["witness_signature"]["sigma_i"] = o_sig["witness_signature"]["sigma_i"].clone(),
+                        ("uI", "other") => rc_["witness_signature"]["u_i"] = o_sig["witness_signature"]["u_i"].clone(),
+                        ("wgI", "other") => rc_["witness_signature"]["g_i"] = o_sig["witness_signature"]["g_i"].clone(),
+                        ("c", "other") => rc_["c"] = o_sig["c"].clone(),
+                        ("m2", "other") => rc_["m2"] = o_sig["m2"].clone(),
+                        ("omega", "other") => wit = o_wit.clone(),
+                        ("i", "plus1") => rc_["i"] = json!(idx4 + 1),
+                        ("vr2", "other") => match sc(&o_sig["vr_prime_prime"]).and_then(|t| t.sub_mod(&vr_prime)).and_then(|t| t.to_string()) {
+                            Ok(t) => rc_["vr_prime_prime"] = json!(t), Err(_) => skip = true },
+                        (fld, "plus1") => {
+                            let k = if fld == "vr2" { "vr_prime_prime" } else { fld };
+                            match sc(&rc_[k]).and_then(|t| t.add_mod(&one)).and_then(|t| t.to_string()) {
+                                Ok(t) => rc_[k] = json!(t), Err(_) => skip = true }
+                        }
+                        _ => skip = true,
+                    }
+                }
+                if skip { continue; }
+                let r: Out<()> = match (from_jv::<CredentialSignature>(&v), from_jv::<Witness>(&wit)) {
+                    (Ok(mut s2), Ok(w2)) => guard(|| Prover::process_credential_signature(&mut s2, &all, &sproof, &factors, &cd.pk, &inonce, Some(&rc.key_pub), Some(&rc.reg), Some(&w2))),
+                    (Err(e2), _) | (_, Err(e2)) => Out::Err(format!("decode: {}", e2)),
+                };
+                let mut oracles = vec![];
+                if fields.is_empty() && !r.is_ok() {
+                    oracles.push(json!({"name":"holder_accepts_issued","ok":false,"detail":format!("process_credential_signature refused an honest revocation signature: {} {}", r.tag(), r.msg())}));
+                }
+                if *single && r.is_ok() {
+                    oracles.push(json!({"name":"holder_rejects_altered","ok":false,"detail":format!("process_credential_signature (with revocation key, registry and witness) accepted a signature after alteration '{}'", name)}));
+                }
+                if matches!(r, Out::Panic(_)) {
+                    oracles.push(json!({"name":"holder_no_panic","ok":false,"detail":format!("process_credential_signature panicked after alteration '{}': {}", name, r.msg())}));
+                }
+                let alter: Vec<Value> = fields.iter().map(|(f, m)| json!({"field": f, "mode": m})).collect();
+                emit(&json!({"id": format!("nr/{}/holder-nr-check/{}", run, ai), "op": "holder_nr_check",
+                    "in": {"ctx": ctx, "alter": alter},
+                    "impl": {"status": r.tag(), "accept": r.is_ok(), "oracles": oracles},
+                    "class": {"kind": "holder_nr_check", "alteration": name, "single": single, "nfields": fields.len()}}));
+            }
+            let _ = r_ctl;
         }
         let req = ReqSpec { revealed: vec!["name".into()], predicates: if rng.chance(1, 2) { vec![PredSpec { attr: "age".into(), ptype: "GE".into(), value: 18 }] } else { vec![] } };
         let reg0 = rc.reg.clone();
@@ -497,6 +610,32 @@ fn gen_nr(thorough: bool, rng: &mut Rng) -> Result<(), String> {
                 "in": {"backend": backend_str(), "mode": mode_str(), "common": ["master_secret"], "creds": creds, "proof": p,
                        "nonce": nonce.to_dec().unwrap_or_default()},
                 "impl": implv, "class": {"kind": "omitted_with_decoy", "ncred": 2, "alteration": "omitted_with_decoy"}}));
+        }
+        // (m) the verifier supplies the registry STATE but not the registry key, the revoked holder omits the part: rejected
+        //     (revocation was asked for and cannot be checked)
+        {
+            let p = build_proof(&rd, &holders[1], &req, None, &nonce)?;
+            let r: Out<bool> = match from_jv::<Proof>(&p.proof) {
+                Ok(pp) => guard(|| {
+                    let mut pv = Verifier::new_proof_verifier()?;
+                    pv.add_common_attribute("master_secret")?;
+                    let rq = req.build().map_err(|e| Error::new(ErrorKind::InvalidState, e))?;
+                    pv.add_sub_proof_request(&rq, &rd.cd.schema, &rd.cd.non_schema, &rd.cd.pk, None, Some(&reg1))?;
+                    pv.verify(&pp, &nonce)
+                }),
+                Err(e2) => Out::Err(format!("decode: {}", e2)),
+            };
+            let cj = cred_json(&rd.cd, &req, true, false);
+            let mut oracles = vec![];
+            if matches!(r, Out::Ok(true)) {
+                oracles.push(json!({"name": "nonrevoc_enforced", "ok": false, "detail": "omitted_registry_without_key: the verifier supplied a registry state (without its key) and a proof without the non-revocation part was accepted"}));
+            }
+            let mut implv = out_bool_json(&r);
+            implv["oracles"] = json!(oracles);
+            emit(&json!({"id": format!("nr/{}/omitted-registry-without-key", run), "op": "verify",
+                "in": {"backend": backend_str(), "mode": mode_str(), "common": ["master_secret"], "creds": [cj], "proof": p.proof,
+                       "nonce": nonce.to_dec().unwrap_or_default()},
+                "impl": implv, "class": {"kind": "omitted_registry_without_key", "ncred": 1, "alteration": "omitted_registry_without_key"}}));
         }
         // (h) no registry supplied: the non-revocation part is not checked and the primary part alone decides
         {
